@@ -979,7 +979,19 @@ def call_arguments(fdef, call, names, base=PEval):
     class H(base):
         def ex(self, node, env):
             if any(n is call for n in ast.walk(node)):
-                vals = {nm: base.ex(self, a, env) for nm, a in zip(names, call.args)}
+                flat = []
+                for a in call.args:
+                    if isinstance(a, ast.Starred):
+                        # f(*args) with args a tuple built in this function: its items are the positional arguments
+                        tv = base.ex(self, a.value, env)
+                        if isinstance(tv, tuple) and tv[0] == 'tuple':
+                            flat += list(tv[1])
+                        else:
+                            flat = None
+                            break
+                    else:
+                        flat.append(base.ex(self, a, env))
+                vals = dict(zip(names, flat)) if flat is not None else {}
                 for k in call.keywords:
                     if k.arg:
                         vals[k.arg] = base.ex(self, k.value, env)
